@@ -27,7 +27,7 @@ def main():
     ok_drv, out_drv = C.lake_build(["qcodrv"])
     if not ok_drv:
         ctx.tie_break("driver-build", tail(out_drv))
-    ok_prop, out_prop = C.lake_build(["Qco.Properties." + m for m in C.property_modules(pid)] or ["Qco.Properties." + pid])
+    ok_prop, out_prop = C.lake_build((["Qco.Properties." + m for m in C.property_modules(pid)] or ["Qco.Properties." + pid]) + C.extra_audit(pid)[0])
     if not ok_prop:
         ctx.proof_break("lake build Qco.Properties.%s" % pid, tail(out_prop))
 
